@@ -210,18 +210,18 @@ func eval(c Case) (out Outcome) {
 				if isUndo {
 					top = d.UndoStackTopForTest()
 				}
-				if content && excluding("C14c") && entryTriggersC14c(d, top) {
+				if content && excluding("F34") && entryTriggersF34(d, top) {
 					// the step is skipped: the entry stays on its stack
-					out.Ev["excluded:C14c"]++
+					out.Ev["excluded:F34"]++
 					continue
 				}
 				if excluding("F6") && c.PeerGC && !e.noPeerGC && entryHasObjectSet(top) {
 					e.noPeerGC = true
 					out.Ev["excluded:F6"]++
 				}
-				if excluding("C14a") && !e.peerOff && entrySetsNonEmptyText(top) {
+				if excluding("F32") && !e.peerOff && entrySetsNonEmptyText(top) {
 					e.peerOff = true
-					out.Ev["excluded:C14a"]++
+					out.Ev["excluded:F32"]++
 				}
 			}
 			before := normalise(d)
@@ -470,7 +470,7 @@ var setupPool = func() []string {
 	// replica they leave structural differences between the two setup
 	// replicas that neither the content nor the identities show (restored
 	// nodes recreated at another physical position, two elements under one
-	// identity; the F6/C14b family, convergence properties) and that would
+	// identity; the F6/F33 family, convergence properties) and that would
 	// surface later as a divergence blamed on the checked program.
 	p = append(p, "sync", "sync", "sync", "sync", "sync", "sync")
 	return p
